@@ -76,6 +76,9 @@ def run(ctx):
                  "Q5": "corner variant: members[argmax(rank_corners_triangle(points, members))], one append per cluster",
                  "Q6": "emitted values are elements of the knees argument", "Q7": "hull path links"}.items():
         res.rule(k, v)
+    from .c13 import check_short_input
+    check_short_input(rc, "Q2", rc.func("postprocessing.filter_clusters"),
+                      extra_args=lambda e: {"clustering": e.symbol("clustering"), "t": e.symbol("t"), "method": Obj("enum", "ClusterRanking.linear")})
     for mode in MODES:
         _filter_clusters(rc, mode)
     _corners(rc)
